@@ -348,6 +348,9 @@ def main(tier):
     rule_gs(ck, units)
     rule_chebyshev_bounds(ck, units)
     rule_ilu_order(ck, units)
+    # 'the parallel level-scheduled triangular solve equals the serial one': schedule rules shared with C09
+    import c09
+    c09.rule_B(ck, {k: v for k, v in units.items() if k == 'rt_builtin'})
     ck.assumptions += ['constant operators of the object (diagonals, approximate inverses, triangular factors) are linear maps: zero in, zero out',
                        'that M is the documented splitting (ILU pattern/values, SPAI least squares, Chebyshev bounds) is numerical and not decided']
     return ck.finish()
